@@ -12,7 +12,7 @@ import copy
 from . import canon, data, ops
 
 LABELS = {
-    "int": ([1, 2], 3),
+    "int": ([0, 2], 1),                # 0 on purpose: tests on the truth value of a label (instead of "is None") show
     "str": (["b", "a"], "third"),      # unsorted on purpose (anything keyed by sorted labels shows); the added label is
                                        # longer than the initial ones (fixed-width string arrays must not truncate it)
     "float": ([1.5, 0.5], 2.5),
